@@ -54,3 +54,18 @@ Example c03_signs_something :
   handler_duration (86400 * NS) (Some (3600 * NS)) (1790000000 * NS) (1790000001 * NS) = Some (3600 * NS)
   /\ ssh_window (1790000001 * NS + 5) (3600 * NS) = (1790000001, 1790003601).
 Proof. vm_compute. split; reflexivity. Qed.
+
+(* "24 hours after the moment the presented session was authenticated": second factors added
+   later (any number, at any time) re-sign the session's claims and do not move that moment, so
+   the bound is counted from the first authentication *)
+Theorem c03_upgrade_keeps_auth_instant : forall levels s, fst (upgrades s levels) = fst s.
+Proof. exact upgrades_keep_iat. Qed.
+Print Assumptions c03_upgrade_keeps_auth_instant.
+
+Theorem c03_bound_after_upgrades : forall maxc req s levels now1 now2 d,
+  0 < maxc < two64 * NS / 4 -> 0 <= fst s -> 0 <= now1 <= now2 -> now2 < two64 * NS / 4 ->
+  now1 < fst s + two64 * NS / 4 ->
+  handler_duration maxc req (fst (upgrades s levels)) now1 = Some d -> 0 <= d ->
+  snd (ssh_window now2 d) * NS <= fst s + maxc + (now2 - now1).
+Proof. exact ssh_bound_after_upgrades. Qed.
+Print Assumptions c03_bound_after_upgrades.
